@@ -75,7 +75,7 @@ pub fn run(ctx: &Ctx, replay: Option<&J>) -> CheckResult {
     crate::crc::self_check();
     let rule = "for every payload length L=0..=1023: frames with random payload and random reserved bits, and near-misses derived \
         from them (wrong preamble, every truncation length 0..L+5, each checksum bit flipped, checksum byte changed/swapped, \
-        length field +-1/random with and without trailing bytes, payload bit flips, trailing bytes, other reserved bits), plus random \
+        length field +-1/random with and without trailing bytes, payload bit flips, trailing bytes, other reserved bits; all 64 reserved-bit patterns for every length = all 65536 header patterns, alone and followed by >1029 bytes), plus random \
         and D3-prefixed random slices; oracle = own CRC-24Q acceptance predicate compared with MessageFrame::new incl. \
         reported lengths/payload/checksum and error kind. non-trivial = accepted frame or near-miss derived from one; distinct = hash of the slice bytes"
         .to_string();
@@ -128,6 +128,20 @@ pub fn run(ctx: &Ctx, replay: Option<&J>) -> CheckResult {
                 // reserved bits do not influence acceptance (re-framed with other reserved bits)
                 let f2 = frame_with_reserved(&p, rng.below(64) as u8);
                 go(&mut ev, &mut vs, &f2, "valid-other-reserved", true);
+                if rep == 0 {
+                    // every one of the 64 reserved-bit patterns for this length (all 65536 header patterns over the run), alone
+                    // and followed by more than a maximum-length frame of other data
+                    let tail = rng.bytes(1040);
+                    for r in 0..64u8 {
+                        let mut g = frame_with_reserved(&p, r);
+                        go(&mut ev, &mut vs, &g, "all-header-patterns", true);
+                        g.extend_from_slice(&tail);
+                        if r % 4 == (l % 4) as u8 {
+                            g[l + 6] = 0xD3;
+                        }
+                        go(&mut ev, &mut vs, &g, "all-header-patterns+long-trailing", true);
+                    }
+                }
                 // reserved bits changed *without* fixing the checksum: covered by C04, here just the predicate
                 // wrong preamble
                 let rp = rng.below(256) as u8;
